@@ -16,7 +16,7 @@ from concurrent.futures import ThreadPoolExecutor
 VERIF = os.path.dirname(os.path.dirname(os.path.abspath(__file__)))
 SPEC = os.path.join(VERIF, "spec")
 HARNESS = os.path.join(VERIF, "harness")
-EVIDENCE = os.path.join(VERIF, "evidence")
+EVIDENCE = os.environ.get("VERIF_EVIDENCE_DIR") or os.path.join(VERIF, "evidence")
 CACHE = os.path.join(VERIF, ".cache")
 KEYS = os.path.join(CACHE, "keys")
 REPO = os.environ.get("VERIF_REPO", "/repo")
@@ -53,10 +53,19 @@ def build_runner(race=False):
     """Builds the runner against REPO's *current working tree* with hooks enabled.
     The harness module has `replace github.com/pojntfx/stfs => /repo`; go.sum is copied from
     the repository so that everything resolves offline."""
-    out = os.path.join(CACHE, "bin", "runner-race" if race else "runner")
+    hdir = HARNESS
+    tag = ""
+    if os.path.realpath(REPO) != "/repo":
+        # evaluating a scratch copy of the repository (seeded changes): private harness copy and binary
+        tag = "-" + hashlib.sha1(os.path.realpath(REPO).encode()).hexdigest()[:8]
+        hdir = os.path.join(CACHE, "harness" + tag)
+        if os.path.isdir(hdir):
+            shutil.rmtree(hdir)
+        shutil.copytree(HARNESS, hdir)
+    out = os.path.join(CACHE, "bin", ("runner-race" if race else "runner") + tag)
     os.makedirs(os.path.dirname(out), exist_ok=True)
-    shutil.copyfile(os.path.join(REPO, "go.sum"), os.path.join(HARNESS, "go.sum"))
-    gomod = os.path.join(HARNESS, "go.mod")
+    shutil.copyfile(os.path.join(REPO, "go.sum"), os.path.join(hdir, "go.sum"))
+    gomod = os.path.join(hdir, "go.mod")
     txt = open(gomod).read()
     want = "replace github.com/pojntfx/stfs => %s" % REPO
     new = re.sub(r"replace github.com/pojntfx/stfs => \S+", want, txt)
@@ -67,7 +76,7 @@ def build_runner(race=False):
         cmd.append("-race")
     cmd.append("./cmd/runner")
     t0 = time.time()
-    p = subprocess.run(cmd, cwd=HARNESS, env=goenv(), capture_output=True, text=True)
+    p = subprocess.run(cmd, cwd=hdir, env=goenv(), capture_output=True, text=True)
     if p.returncode != 0:
         raise Infra("building the runner against %s failed:\n%s" % (REPO, p.stdout + p.stderr))
     log("[build] runner%s built in %.1fs" % (" (race)" if race else "", time.time() - t0))
